@@ -9,4 +9,5 @@ def run(tier):
     r.explanation = ('Engine C: VCs generated from the clang AST of the real c_grid.c (numbering, centres, footprint -> cell, outside -> -1, '
                      'neighbour slots, lemmas nbr_mirror / footprint_forms over the specs), discharged by z3/cvc5; bounded clauses are '
                      'differential runs of the real kernels under ASan/UBSan and are not counted as proved')
+    cm.run_monitors(r, ['mon_grid_api'])
     return r.finish()
